@@ -284,15 +284,18 @@ Proof.
   - apply Ok_inj in H; now subst.
   - apply Ok_inj in H; now subst.
   - unfold f_merge in H. destruct (nodupN merged); [discriminate|].
+    destruct (fx_reject fx && memN target (n :: l)); [discriminate|].
     destruct (all_idx st (n :: l)); [|discriminate]. destruct (get_idx st target); [|discriminate].
     destruct (idx_add_all [] l0) as [mi| |]; try discriminate. destruct (num_voxels mi =? 0); [discriminate|].
     destruct (idx_add i mi); try discriminate. apply Ok_inj in H; now subst.
   - unfold f_cleave in H. destruct (get_idx st body); [|discriminate].
     destruct (negb (nodupb svs) || negb (forallb (sv_in i) svs)); [discriminate|].
     destruct (forallb (fun s => memN s svs) (supervoxels i)); [discriminate|].
-    destruct svs; [discriminate|]. destruct (idx_cleave i (n :: svs)) as [[[? ?] ?] ?].
+    destruct svs; [destruct (fx_reject fx); [discriminate | apply Ok_inj in H; now subst]|].
+    destruct (idx_cleave i (n :: svs)) as [[[? ?] ?] ?].
     apply Ok_inj in H; now subst.
-  - unfold f_renumber in H. destruct (ahas N.eqb new (f_idx st)); [discriminate|].
+  - unfold f_renumber in H. destruct (fx_reject fx && ((new =? 0) || (old =? 0))); [discriminate|].
+    destruct (ahas N.eqb new (f_idx st)); [discriminate|].
     match type of H with (if ?c then _ else _) = _ => destruct c end; [discriminate|].
     destruct (get_idx st old); [|discriminate]. apply Ok_inj in H; now subst.
 Qed.
